@@ -106,7 +106,7 @@ def check(ctx):
     # -------- modules built from a derivative use its strike / call flag / simulated state
     from pfhedge.nn import BlackScholes
     items2, metas2 = [], []
-    for _ in range(60 if ctx.tier == "quick" else 800):
+    for _ in range(150 if ctx.tier == "quick" else 1000):
         mk = gen_market(g, primary=g.choice(["BrownianStock", "HestonStock"]))
         mk["vol"] = [[x if x > 0 else type(x)(1) / 4 for x in r] for r in mk["vol"]]
         mk["var"] = [[x * x for x in r] for r in mk["vol"]]
